@@ -220,6 +220,9 @@ func (r *RunResult) finishPath(it *Interp, why string, ex *Explorer) {
 	}
 	if kind != "" {
 		v := &Violation{Kind: kind, Label: why, Tags: append([]string{}, it.tags...), Decisions: ex.decisions(), Where: it.curPos}
+		if kind == "hang" {
+			v.Where = strings.TrimSpace(it.sch.hangWhere)
+		}
 		v.Model = it.sol.model("", it.syms)
 		v.Witness = it.witness()
 		it.viols = append(it.viols, v)
